@@ -200,14 +200,16 @@ func (d *deepView) pathName(v ssa.Value, fr *frame, depth int) string {
 			return d.pathName(x.X, r.fr, depth+1)
 		}
 	case *ssa.FieldAddr:
-		return d.pathName(x.X, r.fr, depth+1) + "." + ir.FieldOf(x).Name()
+		b := d.canonStruct(x.X, r.fr, 0)
+		return d.pathName(b.v, b.fr, depth+1) + "." + ir.FieldOf(x).Name()
 	case *ssa.Field:
 		st, _ := x.X.Type().Underlying().(*types.Struct)
 		n := fmt.Sprint(x.Field)
 		if st != nil {
 			n = st.Field(x.Field).Name()
 		}
-		return d.pathName(x.X, r.fr, depth+1) + "." + n
+		b := d.canonStruct(x.X, r.fr, 0)
+		return d.pathName(b.v, b.fr, depth+1) + "." + n
 	case *ssa.IndexAddr:
 		ix := "*"
 		if k, ok := ir.ConstInt(x.Index); ok {
@@ -245,6 +247,49 @@ func (d *deepView) pathName(v ssa.Value, fr *frame, depth int) string {
 		return d.pathName(x.X, r.fr, depth+1) + "[:]"
 	}
 	return fnReg(r.v)
+}
+
+// canonStruct follows a struct value (or the address of one) back through plain
+// copies — by-value parameters, local copies assigned once as a whole — to the
+// object it was copied from, so that the same field reached through different
+// copies gets one name.
+func (d *deepView) canonStruct(v ssa.Value, fr *frame, depth int) dval {
+	r := d.resolve(v, fr)
+	if depth > 10 {
+		return r
+	}
+	switch x := r.v.(type) {
+	case *ssa.UnOp:
+		if x.Op == token.MUL {
+			if _, isStruct := x.Type().Underlying().(*types.Struct); isStruct {
+				return d.canonStruct(x.X, r.fr, depth+1)
+			}
+		}
+	case *ssa.Alloc:
+		if _, isStruct := x.Type().Underlying().(*types.Pointer).Elem().Underlying().(*types.Struct); !isStruct {
+			return r
+		}
+		// field stores make it an object of its own
+		hasField := false
+		for _, ref := range *x.Referrers() {
+			if fa, ok := ref.(*ssa.FieldAddr); ok {
+				for _, rr := range *fa.Referrers() {
+					if st, isSt := rr.(*ssa.Store); isSt && st.Addr == ssa.Value(fa) {
+						hasField = true
+					}
+				}
+			}
+		}
+		if hasField {
+			return r
+		}
+		var whole []storeAt
+		d.eachStoreTo(x, r.fr, func(st *ssa.Store, f *frame) { whole = append(whole, storeAt{st, f}) })
+		if len(whole) == 1 {
+			return d.canonStruct(whole[0].st.Val, whole[0].fr, depth+1)
+		}
+	}
+	return r
 }
 
 // affine evaluates an integer expression across the view.
@@ -626,6 +671,29 @@ func (d *deepView) typeArms(ids ...string) []typeArm {
 func (d *deepView) fieldOrigin(v ssa.Value, fr *frame, depth int) string {
 	if depth > 10 || v == nil {
 		return ""
+	}
+	// a call: what its arguments derive from decides first (p.f.method() is a view
+	// of p.f whatever the method does inside)
+	if call, isCall := ir.StripConv(ir.StripIface(v)).(*ssa.Call); isCall {
+		var args []ssa.Value
+		for _, a := range ir.CallArgs(call) {
+			if _, isK := a.(*ssa.Const); !isK {
+				args = append(args, a)
+			}
+		}
+		out := ""
+		okAll := len(args) > 0
+		for _, a := range args {
+			o := d.fieldOrigin(a, fr, depth+1)
+			if o == "" || out != "" && o != out {
+				okAll = false
+				break
+			}
+			out = o
+		}
+		if okAll {
+			return out
+		}
 	}
 	r := d.resolveConv(ir.StripIface(v), fr)
 	switch x := r.v.(type) {
